@@ -15,7 +15,8 @@ RULE = (
     "controlled scheduler parks every async body and releases one only when the event loop is exactly quiescent, so at "
     "each quiescent point as many bodies are open as the framework allows (worst case for the bound, and the state in "
     "which a permit held across a nested run deadlocks); release policies FIFO, LIFO, seeded random; optional "
-    "yield-injecting processors. Oracle: the in-flight counter of function-node bodies (incremented at function entry, "
+    "yield-injecting processors; every fifth case is a SEQUENCE in one task: a bounded map/run that fails, then a run "
+    "with a smaller limit. Oracle: the in-flight counter of function-node bodies (incremented at function entry, "
     "decremented at return/raise, maintained by the instrumented functions) never exceeds k; no logical deadlock "
     "(quiescent, nothing parked, call unfinished); result equals the unlimited run's result. Non-trivial: >= k+1 bodies "
     "could run concurrently (unlimited peak > k); distinct = (program shape, k, policy, form)."
@@ -154,6 +155,76 @@ def one(ctx, i):
     ctx.case({"s": gen.shape_of(spec), "form": form, "n": len(inputs.get("x")) if isinstance(inputs.get("x"), list) else 0}, peak_unlimited >= 2, sample=case if i < 2 else None)
 
 
+def sequence_case(ctx, i):
+    """Two bounded top-level calls awaited one after the other from ONE task; the first one fails (raise mode).
+    The second call's own limit must hold: nothing of the first call's limiter may survive its failure."""
+    from hgmon.build import all_fids, build_program
+    from hypergraph import AsyncRunner
+
+    rng = ctx.rng
+    spec1, in1 = gen_wide(rng, rng.randint(0, 1), name="wa", prefix="a_")
+    spec2, in2 = gen_wide(rng, rng.randint(0, 1), name="wb", prefix="b_")
+    # make the second program wide enough to exceed a small limit
+    for j in range(4):
+        spec2["nodes"].append({"k": "fn", "name": f"b_extra{j}", "params": [{"n": "x"}], "outs": [f"b_ev{j}"], "async": True})
+    k1, k2 = rng.choice([4, 6, 8]), rng.choice([1, 2, 3])
+    first_form = rng.choice(["map", "run"])
+    rt.install_taps()
+    rt.reset_program()
+    b1, b2 = build_program(spec1), build_program(spec2)
+    f1 = [f for f, ns in all_fids(spec1).items() if ns["k"] == "fn"]
+    rt.FAIL.clear()
+    rt.FAIL[rng.choice(f1)] = Boom("first call fails")
+    rec = rt.new_rec()
+    runner = AsyncRunner()
+    in1 = dict(in1)
+    if first_form == "map":
+        in1["x"] = [f"x{q}" for q in range(rng.randint(2, 4))]
+
+    async def seq():
+        try:
+            if first_form == "map":
+                await runner.map(b1.graph, in1, map_over="x", max_concurrency=k1)
+            else:
+                await runner.run(b1.graph, in1, max_concurrency=k1)
+        except Boom:
+            pass
+        return await runner.run(b2.graph, in2, max_concurrency=k2)
+
+    pol = rng.choice(["first", "last", "rand"])
+    sched = rt.Sched(default=pol, rng=rng)
+    case = {"first": spec1, "second": spec2, "k_first": k1, "k_second": k2, "first_form": first_form, "policy": pol}
+    try:
+        res = rt.run_async(seq, sched=sched)
+    except rt.Deadlock:
+        ctx.violation("C15:deadlock", f"second call (k={k2}) after a failed first call (k={k1}): loop quiescent, nothing parked, call not finished", case)
+        return
+    except rt.Inconclusive as e:
+        ctx.inconc(str(e))
+        return
+    except Exception as e:  # noqa: BLE001
+        ctx.violation("C15:result-differs", f"second call raised {e!r} after a failed first call", case)
+        return
+    finally:
+        rt.FAIL.clear()
+    ctx.obs["sequence_cases"] += 1
+    ctx.obs["limited_runs"] += 1
+    # in-flight count among the SECOND program's bodies
+    open_b, peak = 0, 0
+    for e in rec.ev:
+        if e[0] == "enter" and e[1].startswith("wb/"):
+            open_b += 1
+            peak = max(peak, open_b)
+        elif e[0] in ("exit", "raise") and isinstance(e[1], str) and e[1].startswith("wb/"):
+            open_b -= 1
+    ctx.obs["bodies_entered"] += rec.count("enter")
+    if peak > k2:
+        ctx.violation("C15:bound-exceeded", f"second call max_concurrency={k2} after a failed {first_form}(max_concurrency={k1}) in the same task: {peak} of its function-node bodies executing at the same instant", case)
+    elif getattr(res, "status", None) is None or res.status.value != "completed":
+        ctx.violation("C15:result-differs", f"second call after a failed first call: {getattr(res, 'status', res)!r}", case)
+    ctx.case({"seq": first_form, "k1": k1, "k2": k2, "s": gen.shape_of(spec2)}, True)
+
+
 def run(ctx):
     n = 40 if ctx.tier == "quick" else 1000
     core.WARM_P = 0.0
@@ -170,4 +241,7 @@ def run(ctx):
         ctx.case("r2")
         return
     for i in range(n):
-        one(ctx, i)
+        if i % 5 == 4:
+            sequence_case(ctx, i)
+        else:
+            one(ctx, i)
